@@ -63,12 +63,65 @@ def local_names(fn):
             out.append(name)
     return out
 
+def shapes(fn):
+    """the comparison, branch-test and mask / shift expressions of a function, as text"""
+    out = set()
+    for n in ast.walk(fn):
+        if isinstance(n, ast.Compare):
+            out.add(ast.unparse(n))
+        elif isinstance(n, (ast.If, ast.While, ast.IfExp)):
+            out.add(ast.unparse(n.test))
+        elif isinstance(n, ast.BinOp) and isinstance(n.op, (ast.Mod, ast.FloorDiv, ast.BitAnd, ast.RShift)):
+            out.add(ast.unparse(n))
+    return out
+
+_FLIP = {ast.Lt: ast.Gt, ast.Gt: ast.Lt, ast.LtE: ast.GtE, ast.GtE: ast.LtE, ast.Eq: ast.Eq, ast.NotEq: ast.NotEq}
+
+class _Restore(ast.NodeTransformer):
+    """bottom-up: an expression the pinned function does not contain, whose equivalent form it does contain, is put back into that form"""
+    def __init__(self, known):
+        self.known, self.count = known, 0
+    def visit_Compare(self, node):
+        self.generic_visit(node)
+        if len(node.ops) == 1 and type(node.ops[0]) in _FLIP and ast.unparse(node) not in self.known:
+            f = ast.Compare(left=node.comparators[0], ops=[_FLIP[type(node.ops[0])]()], comparators=[node.left])
+            if ast.unparse(f) in self.known:
+                self.count += 1
+                return ast.copy_location(f, node)
+        return node
+    def visit_BinOp(self, node):
+        self.generic_visit(node)
+        if isinstance(node.right, ast.Constant) and isinstance(node.right.value, int) and ast.unparse(node) not in self.known:
+            k = node.right.value
+            alt = None
+            if isinstance(node.op, ast.BitAnd) and k > 0 and (k + 1) & k == 0:
+                alt = ast.BinOp(left=node.left, op=ast.Mod(), right=ast.Constant(value=k + 1))
+            elif isinstance(node.op, ast.RShift) and 0 < k < 32:
+                alt = ast.BinOp(left=node.left, op=ast.FloorDiv(), right=ast.Constant(value=1 << k))
+            elif isinstance(node.op, ast.Mod) and k > 1 and k & (k - 1) == 0:
+                alt = ast.BinOp(left=node.left, op=ast.BitAnd(), right=ast.Constant(value=k - 1))
+            elif isinstance(node.op, ast.FloorDiv) and k > 1 and k & (k - 1) == 0:
+                alt = ast.BinOp(left=node.left, op=ast.RShift(), right=ast.Constant(value=k.bit_length() - 1))
+            if alt is not None and ast.unparse(alt) in self.known:
+                self.count += 1
+                return ast.copy_location(alt, node)
+        return node
+    def visit_If(self, node):
+        self.generic_visit(node)
+        t = node.test
+        if isinstance(t, ast.UnaryOp) and isinstance(t.op, ast.Not) and node.orelse and ast.unparse(t) not in self.known and ast.unparse(t.operand) in self.known:
+            self.count += 1
+            node.test, node.body, node.orelse = t.operand, node.orelse, node.body
+        return node
+
 def normalise(modname, tree):
     """rename locals back to their canonical names where that is unambiguous; -> {function: {current name: canonical name}}"""
-    t = table().get(modname)
+    t0 = table().get(modname)
     done = {}
-    if not t:
+    if not t0:
         return done
+    t = {q: (v['locals'] if isinstance(v, dict) else v) for q, v in t0.items()}
+    exprs = {q: set(v.get('exprs', ())) for q, v in t0.items() if isinstance(v, dict)}
     for qname, fn in outer_functions(tree):
         canon = t.get(qname)
         if canon is None:
@@ -94,6 +147,13 @@ def normalise(modname, tree):
         n = inline_new_temps(fn, set(canon))
         if n:
             done.setdefault(qname, {})['(temporaries put back in place)'] = n
+        known = exprs.get(qname)
+        if known:
+            r = _Restore(known)
+            r.visit(fn)
+            if r.count:
+                ast.fix_missing_locations(fn)
+                done.setdefault(qname, {})['(expressions put back into the pinned form)'] = r.count
     return done
 
 def _has_call(node, skip=None):
